@@ -11,10 +11,12 @@ A property module exposes ``PROP = SomeProp()``.
 
 
 class Violation:
-    __slots__ = ("oracle", "sig", "narrative")
+    __slots__ = ("oracle", "sig", "narrative", "pin")
 
-    def __init__(self, oracle, sig, narrative=""):
-        self.oracle, self.sig, self.narrative = oracle, str(sig), narrative
+    def __init__(self, oracle, sig, narrative="", pin=None):
+        # pin: optional dict merged into the scenario to make the violating choice explicit
+        # (e.g. the one fault of an enumeration), tried first by the minimiser
+        self.oracle, self.sig, self.narrative, self.pin = oracle, str(sig), narrative, pin
 
     def key(self):
         return (self.oracle, self.sig)
@@ -47,8 +49,8 @@ class Outcome:
     def fault(self, kind, n=1):
         self.faults[kind] = self.faults.get(kind, 0) + n
 
-    def violate(self, oracle, sig, narrative=""):
-        self.violations.append(Violation(oracle, sig, narrative))
+    def violate(self, oracle, sig, narrative="", pin=None):
+        self.violations.append(Violation(oracle, sig, narrative, pin))
 
 
 class Prop:
